@@ -1094,6 +1094,9 @@ def run(ck):
         "fake transport = subclass of the real QMI_Transport (real open/close/_check_is_open); only the OS resource is "
         "replaced; a failing close leaves the transport marked closed, as the five real transports do (checked by AST)",
         "stub context unittest.mock.MagicMock(spec=QMI_Context), as in the repository's own driver tests",
+        "the model's primitives (CheckOpen/CheckClosed/SetOpen/SetClosed, LinkOpen/LinkClose) are checked on every run "
+        "against the real QMI_Instrument and QMI_Transport (+ every transport subclass) for every flag value and "
+        "hook/resource failing or not: outcome, exception class, resulting flag, hook calls, nothing else changed",
     ]
     ck.assumptions = [
         "part 2 (closed instrument): an operation on the transport is refused by the transport itself when it is closed "
@@ -1119,10 +1122,22 @@ def run(ck):
         ck.report("tie:translator", "t_c19_openclose could not read the driver tree (broken tie): %s" % e,
                   {"broken": "translator t_c19_openclose", "error": str(e)}, found_input=False)
         return ck.finish("translator failed")
-    for p in res["facts"]:
-        ck.report("tie:base-shape:" + re.sub(r"[^A-Za-z_.]+", "-", p)[:60],
-                  "the model's primitive no longer matches the base class: " + p,
-                  {"broken": "base_facts of t_c19_openclose", "fact": p}, found_input=False)
+    # the base classes behave like the model's primitives?  (behavioural, exhaustive; replaces the syntactic shapes)
+    import logging
+    logging.disable(logging.CRITICAL)
+    try:
+        bprob, bterms, bsum = base_behaviour()
+    except Exception as e:  # noqa: BLE001
+        bprob, bterms, bsum = [("base-behaviour:harness", "the base-class behaviour check could not run: %s: %s" % (
+            type(e).__name__, e), {"broken": "c19.base_behaviour", "error": repr(e)})], [], {}
+    finally:
+        logging.disable(logging.NOTSET)
+    ck.coverage["base_class_behaviour"] = bsum
+    for key, text, detail in bprob:
+        ck.report(key, "the real base class does not behave like the model's primitive: " + text, detail,
+                  found_input="broken" not in detail)
+    for _ in bterms:
+        ck.count("base-primitive-case")
     classes = res["classes"]
     dyn_only = [x["entry"] for x in res["not_covered"] if "entry" in x]   # untranslatable: oracle only
     not_covered = [{"class": s["class"], "config": s.get("config"), "part": "static+dynamic", "reason": s["reason"]}
@@ -1324,6 +1339,12 @@ def run(ck):
                        "live": e["live"], "phase": "closed-method", "method": m["name"], "observed": rec,
                        "method_program": m["prog"], "broken": "correspondence C19.Corr.check_mcase"},
                       found_input=False)
+    if bterms:
+        for idx in ck.run_model("C19.Corr", "check_case", bterms, "case"):
+            ck.report("base-behaviour:model:%d" % idx, "a base-class call observed on the real class is not an execution "
+                      "of the model's primitive: %s" % bterms[idx], {"phase": "base-behaviour", "case": bterms[idx]})
+        for t_ in bterms:
+            ck.note_case(("base", t_), True)
     bad = ck.run_model(CORR, "check_case", terms, "case", shard=300)
     ck.coverage["correspondence_disagreements"] = len(bad)
     seen = set()
@@ -1359,6 +1380,14 @@ def replay(rep):
         return 1
     import logging
     logging.disable(logging.CRITICAL)
+    if c["phase"] == "base-behaviour":
+        bprob, bterms, bsum = base_behaviour()
+        print("base-class behaviour check:", bsum)
+        for key, text, detail in bprob:
+            print("  MISMATCH", key, "-", text)
+        print("oracle:", "the base classes do NOT behave like the model's primitives" if bprob else
+              "the base classes behave like the model's primitives")
+        return 1 if bprob else 0
     res = TR.translate(common.REPO)
     entry = next((e for e in res["classes"] if e["ident"] == c["ident"]), None)
     if entry is None:
